@@ -11,7 +11,7 @@ CONSTANTS
   MaxSteps = 2
   Pool = "tiny"
   Ordered = FALSE
-  Modes = {"default", "single", "uniform", "random", "mutate", "area", "areapair"}
+  Modes = {"default", "single", "uniform", "random", "mutate", "area", "areapair", "trunc", "tail", "delch", "dupch", "eol"}
   Kinds = {1, 2, 3, 4, 5, 6, 7, 8, 9, 10, 11, 12, 13, 14}
   Salts = {1, 2}
   Density = 3
@@ -19,6 +19,6 @@ CONSTANTS
   Seed = 1
   Avoid = TRUE
   Showcase = FALSE
-INVARIANTS LayoutLegal CanonicalLegal MeaningShape AreaSane
+INVARIANTS LayoutLegal CanonicalLegal MeaningShape AreaSane CharSane
 VIEW View
 CHECK_DEADLOCK FALSE
